@@ -126,6 +126,62 @@ func qmulScenario(cf conf) engine.Scenario {
 	}}
 }
 
+// obtainedScenario: the way the evaluator was OBTAINED, crossed with both modes (every configuration is one mode):
+// NewEvaluator itself, ShallowCopy, WithKey (same keys), WithKey then ShallowCopy, ShallowCopy then WithKey. The
+// obtained evaluator must behave as the original of its mode: all programs mini x mini (the first product already
+// shows the recorded scale) and the MulRelin spine run on it with the oracles of the register machine.
+func obtainedScenario(cf conf, mini []instr) engine.Scenario {
+	name := "obtained/" + cf.name()
+	st := newScenState(name)
+	return engine.Scenario{Name: name, Bound: -1, Fn: func(c *engine.Chooser) {
+		m := newMachine(c, cf, st)
+		if m == nil {
+			return
+		}
+		w := m.w
+		how := c.Choose(5, "obtained")
+		switch how {
+		case 1:
+			m.ev = w.ev.ShallowCopy()
+		case 2:
+			m.ev = w.ev.WithKey(w.evk)
+		case 3:
+			m.ev = w.ev.WithKey(w.evk).ShallowCopy()
+		case 4:
+			m.ev = w.ev.ShallowCopy().WithKey(w.evk)
+		}
+		c.Cover("pattern", "obtained")
+		c.Cover("obtained", []string{"new", "shallowcopy", "withkey", "withkey-shallowcopy", "shallowcopy-withkey"}[how]+"/"+map[bool]string{false: "bgv", true: "bfv"}[cf.si])
+		if m.ev.ScaleInvariant != cf.si {
+			// reported, and the program still runs: the behavioural oracles (recorded scale, decoded value) judge it too
+			m.softFail(c, "C05/obtained/mode", "evaluator obtained by %d reports ScaleInvariant=%v, the original was created with %v", how, m.ev.ScaleInvariant, cf.si)
+		}
+		m.path = fmt.Sprintf("how%d.", how)
+		if c.Choose(2, "program") == 0 {
+			for s := 0; s < 2; s++ {
+				idx := c.Choose(len(mini), fmt.Sprintf("instr%d", s))
+				if !m.step(c, idx, mini[idx], s == 1) {
+					return
+				}
+			}
+			return
+		}
+		// spine: MulRelin with the other register, then Rescale (BGV) / DropLevel (BFV), down to level 0
+		for s := 0; s < 2*w.L; s++ {
+			ins := instr{opMulRelin, 0, kCtOther, 0, dInPlace}
+			if s%2 == 1 {
+				ins = instr{opRescale, 0, kNone, 0, dInPlace}
+				if cf.si {
+					ins = instr{opDropLevel, 0, kNone, 0, dInPlace}
+				}
+			}
+			if !m.step(c, 2000+s, ins, false) {
+				return
+			}
+		}
+	}}
+}
+
 func newMachine(c *engine.Chooser, cf conf, st *scenState) *machine {
 	w := getWorld(c, cf, cf.name())
 	c.Cover("mode", map[bool]string{false: "bgv", true: "bfv"}[cf.si])
@@ -134,7 +190,7 @@ func newMachine(c *engine.Chooser, cf conf, st *scenState) *machine {
 		c.Fail("C05/init", "initial state: %s", w.initOK)
 		return nil
 	}
-	m := &machine{w: w, scen: st}
+	m := &machine{w: w, ev: w.ev, scen: st}
 	for i := range m.regs {
 		m.regs[i] = w.init[i].clone()
 	}
@@ -322,7 +378,7 @@ func scenarios(tier string) []engine.Scenario {
 	core := coreAlphabet()
 	mini := miniAlphabet()
 	for _, cf := range configs(tier) {
-		scs = append(scs, failScenario(cf))
+		scs = append(scs, failScenario(cf), obtainedScenario(cf, mini))
 		const nch = 8
 		switch {
 		case cf.light:
@@ -385,7 +441,7 @@ func main() {
 		ThoroughBudget: 25 * time.Minute,
 		Expect: func(tier string) []string {
 			e := []string{"mode=bgv", "mode=bfv", "t=97", "t=17-gap2", "t=17-gap4", "t=17-gap8", "t=45bit-above-chain-primes", "relin=no-P-no-base2", "pattern=mini-mini-mini", "t=65537", "t=30bit", "t=60bit", "scales=mismatched", "scales=equal",
-				"levels=different", "levels=equal", "budget=exceeded", "rescale=nop-bfv", "spine=reached-level-0", "pattern=spine", "pattern=qmul-boundary",
+				"levels=different", "levels=equal", "budget=exceeded", "rescale=nop-bfv", "spine=reached-level-0", "pattern=spine", "pattern=qmul-boundary", "pattern=obtained", "obtained=withkey/bfv", "obtained=withkey/bgv", "obtained=shallowcopy/bfv", "obtained=withkey-shallowcopy/bfv", "obtained=shallowcopy-withkey/bfv",
 				"qmul-judged=logN=10", "qmul-judged=logN=4", "qmul-ring=logN=10 slots=8", "qmul-ring=logN=10 slots=16", "qmul-ring=logN=10 slots=1024",
 				"qmul-ring=logN=4 slots=8", "qmul-ring=logN=4 slots=16"}
 			for _, k := range []int{1, 2} {
